@@ -28,7 +28,7 @@ CLAIMS = {
              'ones (cover columns and final_source) (KEY); cached maps and the memoised hash are write-once — only '
              'readers and first-writers (VacantEntry::insert / Entry::or_insert*) touch the map cache, the cache fields '
              'are never reassigned (WRITEONCE); memo cells are used through get/get_or_init/clone only and every initialiser '
-             'reads data fields only (MEMO). NOT decided: that replay from (cached map + rope) attributes like the wrapped source. Added: both map collectors (map() and the cache-filling tee) feed every mapping to the encoder unconditionally (ENCODE-ALL), a necessary condition of replay transparency; content views forward (DELEG). Round 3: the cache is never traversed, only read under the caller\'s key (KEY); MEMO covers every OnceLock/OnceCell cell; MEMO-RESET. Round 4: ENC-DEDUP — the cached map is produced by an encoder that does not swallow differing segments. TEE-FORWARD registered here as well (the first, cache-filling stream is as good as the wrapped source\'s own).',
+             'reads data fields only (MEMO). NOT decided: that replay from (cached map + rope) attributes like the wrapped source. Added: both map collectors (map() and the cache-filling tee) feed every mapping to the encoder unconditionally (ENCODE-ALL), a necessary condition of replay transparency; content views forward (DELEG). Round 3: the cache is never traversed, only read under the caller\'s key (KEY); MEMO covers every OnceLock/OnceCell cell; MEMO-RESET. Round 4: ENC-DEDUP — the cached map is produced by an encoder that does not swallow differing segments. TEE-FORWARD registered here as well (the first, cache-filling stream is as good as the wrapped source\'s own). SIBLING-SPLICE registered here as well: the replay streams rope(), which must render to source().',
         technique='who-may-call / receiver-type allow-list over resolved callees, def-use key provenance on MIR',
         design_ref='§5 C10'),
     'C14': dict(
@@ -37,7 +37,7 @@ CLAIMS = {
              'calls on self) reads cache state except through a memo accessor, memo cells are never compared/hashed/mutated '
              'themselves and all initialisers of a cell agree (MEMO); `==` of every type compares every data field (EQCOVER); '
              'Hash reads no data field Eq ignores, i.e. a==b implies equal hashes (HASH-IN-EQ); every hand-written Clone copies '
-             'every data field from self (CLONECOVER). NOT decided: "equal values give equal answers from every observer" as behaviour. Also registered here because the clauses depend on them: RESET/FRESH (the sorted accessor MEMO trusts is pure only if they hold), KEY/WRITEONCE (repeating an observer call never changes its answer), HASHALL (a container hash covers every element). Round 3: a cache shared between clones requires immutable data (CLONECOVER shared-cache); MEMO-RESET. Round 3b: EQ-ALLPATHS — in a hand-written eq, every path to `true` compares every data field (no data-dependent shortcut to equality). Round 5: FRESH also requires that a copied sorted-flag comes with a copied index (Clone); EQ-ALLPATHS requires a length comparison next to an element-wise zip.',
+             'every data field from self (CLONECOVER). NOT decided: "equal values give equal answers from every observer" as behaviour. Also registered here because the clauses depend on them: RESET/FRESH (the sorted accessor MEMO trusts is pure only if they hold), KEY/WRITEONCE (repeating an observer call never changes its answer), HASHALL (a container hash covers every element). Round 3: a cache shared between clones requires immutable data (CLONECOVER shared-cache); MEMO-RESET. Round 3b: EQ-ALLPATHS — in a hand-written eq, every path to `true` compares every data field (no data-dependent shortcut to equality). Round 5: FRESH also requires that a copied sorted-flag comes with a copied index (Clone); EQ-ALLPATHS requires a length comparison next to an element-wise zip. Round 6: MEMO — inside Eq / Hash a memo cell may only be the receiver of get_or_init (get() would reveal whether it has been filled).',
         technique='field-access-set analysis (A-FIELDS) over Eq/Hash/Clone cones on MIR; DATA/CACHE classification by Freeze',
         design_ref='§5 C14'),
     'C18': dict(
@@ -63,7 +63,7 @@ CLAIMS = {
              'alphabet, the 256-entry decoder table is its exact inverse with two distinct separator codes and one invalid code '
              '(TABLES, const-evaluated by the compiler, 320 entries); every byte any writer can put into an encoder buffer is a '
              'base64 digit, "," or ";" (ALPHABET, sound over-approximation over all writers incl. helper functions and closures). '
-             'NOT decided: VLQ arithmetic, relative-field state, skip rules, the line-only encoder, round-trip equality. Added: LINE-RESET — the decoder resets the running column whenever it advances the line, the full encoder resets its column state whenever it writes a semicolon. Round 3: ENC-FIRST-MAPPED (the line-only encoder takes state from a segment\'s line only when the segment is mapped). Round 4: ENC-DEDUP (the "same original, skip" shortcut compares every per-segment state it records), ENC-OMIT (a tracked field is written as a delta or skipped only after the equality test with the state: no constant digits for an uncompared field), ENCODER-TOTAL (no arithmetic panic in the encoders).',
+             'NOT decided: VLQ arithmetic, relative-field state, skip rules, the line-only encoder, round-trip equality. Added: LINE-RESET — the decoder resets the running column whenever it advances the line, the full encoder resets its column state whenever it writes a semicolon. Round 3: ENC-FIRST-MAPPED (the line-only encoder takes state from a segment\'s line only when the segment is mapped). Round 4: ENC-DEDUP (the "same original, skip" shortcut compares every per-segment state it records), ENC-OMIT (a tracked field is written as a delta or skipped only after the equality test with the state: no constant digits for an uncompared field), ENCODER-TOTAL (no arithmetic panic in the encoders). Round 6: VLQ-TERMINATED — path-sensitive replay of one loop iteration of the VLQ writer from the loop-head facts: a digit that can be the last one before the writer returns is < 32, a digit followed by another is >= 32.',
         technique='compiler const-evaluation of the codec tables + constant byte-set dataflow into the encoder buffers',
         design_ref='§5 C12'),
     'C15': dict(
@@ -72,7 +72,7 @@ CLAIMS = {
              'accepts (plus constant "version"), each bound to its namesake field (JSON-NAMES, read from the derived impls\' MIR '
              'and FIELDS constant), and through TryFrom every field is rebuilt from the raw field its own key is read into '
              '(JSON-FLOW) — so each field survives a round trip by name; several fields share a type, so a swap would compile. '
-             'NOT decided: escaping, parser totality, value equality after the round trip (simd-json/serde behaviour). Added: Option fields are skipped by Option::is_none only (JSON-SKIP: a present-but-empty value survives); the from_* cones touch no static / thread-local state (JSON-PURE). Round 3: raw fields of one type are converted by one call skeleton (JSON-SIBLING); IOERR for SourceMap::to_writer. Round 4: the raw fields feeding sources / sourcesContent / names have nullable entries (part of JSON-SIBLING). Round 5: JSON-ENTRIES — from_json / from_slice / from_reader hand the document to the JSON library whole (no loop, read or split of their own).',
+             'NOT decided: escaping, parser totality, value equality after the round trip (simd-json/serde behaviour). Added: Option fields are skipped by Option::is_none only (JSON-SKIP: a present-but-empty value survives); the from_* cones touch no static / thread-local state (JSON-PURE). Round 3: raw fields of one type are converted by one call skeleton (JSON-SIBLING); IOERR for SourceMap::to_writer. Round 4: the raw fields feeding sources / sourcesContent / names have nullable entries (part of JSON-SIBLING). Round 5: JSON-ENTRIES — from_json / from_slice / from_reader hand the document to the JSON library whole (no loop, read or split of their own). IOERR\'s partial-write clause covers SourceMap::to_writer.',
         technique='constant/def-use extraction from derived Serialize/Deserialize MIR; field-flow through TryFrom',
         design_ref='§5 C15'),
     'C17': dict(
@@ -92,7 +92,7 @@ CLAIMS = {
              'data fields, or the same-named view of the children, or the type\'s own source() — and so are the two text views '
              '(source, rope); wrappers forward each view to the same view of the wrapped source (DELEG); no to_writer body drops, unwraps or '
              'ignores a writer error: each io::Result is returned or propagated with `?` (IOERR). NOT decided: that rope() renders to source(), '
-             'concatenation order, lossy decoding, the prefix property of a failed write. Added: writes go to the caller\'s writer or to an adapter with a propagated post-dominating flush (IOERR-SINK); ReplaceSource\'s two splice implementations agree on their position skeleton (SIBLING-SPLICE). Round 3: MEMO-RESET (a memo cell is reset by whoever mutates the data it was computed from).',
+             'concatenation order, lossy decoding, the prefix property of a failed write. Added: writes go to the caller\'s writer or to an adapter with a propagated post-dominating flush (IOERR-SINK); ReplaceSource\'s two splice implementations agree on their position skeleton (SIBLING-SPLICE). Round 3: MEMO-RESET (a memo cell is reset by whoever mutates the data it was computed from). Round 6: IOERR also requires that the byte count of a partial-write call (Write::write / write_vectored) is used; MEMO registered here (all initialisers of a memoised view agree).',
         technique='view-basis comparison (field-access sets + resolved trait callees per view) and def-use of call results on MIR',
         design_ref='§5 C07'),
     'C13': dict(
@@ -134,7 +134,7 @@ CLAIMS = {
         text='Static: the leaves the property rests on — every mapping an OriginalSource emits is the identity (original line/column are '
              'the very values reported as generated line/column, or both 0; source index 0; no name) and it announces exactly (0, its name '
              'field, Some(its own text)), field roles taken from the public constructor (IDENT). NOT decided: provenance through '
-             'Concat/Replace/Cached, statement-start resolution, columns=false attribution. Added: ConcatSource\'s pending-close flag is sticky (cleared only after a test that found it set, otherwise OR-carried), so an empty child cannot swallow the segment that un-maps following raw text (STICKY). Still NOT decided: position arithmetic of ReplaceSource\'s generated-end info (seeded C04-m2 is not detected). Round 4: FORWARD-ALL — no path through ConcatSource\'s chunk handler swallows a child\'s notification (found the closing-position defect of nested composites in final-source mode, fixed as 988c728). ENC-OMIT — the line-only encoder emits its constant "same file, next line" form only after comparing the file.',
+             'Concat/Replace/Cached, statement-start resolution, columns=false attribution. Added: ConcatSource\'s pending-close flag is sticky (cleared only after a test that found it set, otherwise OR-carried), so an empty child cannot swallow the segment that un-maps following raw text (STICKY). Still NOT decided: position arithmetic of ReplaceSource\'s generated-end info (seeded C04-m2 is not detected). Round 4: FORWARD-ALL — no path through ConcatSource\'s chunk handler swallows a child\'s notification (found the closing-position defect of nested composites in final-source mode, fixed as 988c728). ENC-OMIT — the line-only encoder emits its constant "same file, next line" form only after comparing the file. SIBLING-SPLICE registered here as well (a cached ReplaceSource is replayed from rope()).',
         technique='def-use equality of aggregate operands on MIR',
         design_ref='§5 C04'),
     'C06': dict(
@@ -159,7 +159,7 @@ CLAIMS = {
         text='Static: the index-table discipline of the combined-map combinator — both index kinds are renumbered and both emitting '
              'aggregates take source/name indices only from the announced (global) numbering or tables filled from it; outer/inner local '
              'indices are used as keys only (IDX); each of its six de-duplication inserts stores len() and is followed by the announcement of '
-             'that value (PAIR). NOT decided: the binary search, identity-column adjustment, name matching, fallback semantics. Added: an announced fresh index is paired with an insertion into the same de-duplication map (PAIR converse); outer-name lookups that can reach an inner-mapped location are dominated by the name-vs-original-text comparison (NAMECHECK). Round 3: KEYSPACE and SIDES (translation tables are keyed in one numbering; tables handed to one helper belong to one child stream). Round 4: CTOR-VERBATIM — SourceMapSource constructors store the remove_original_source request as given. Round 5: CTOR-VERBATIM covers every constructor field (value, name, maps, original source), not only the removal flag.',
+             'that value (PAIR). NOT decided: the binary search, identity-column adjustment, name matching, fallback semantics. Added: an announced fresh index is paired with an insertion into the same de-duplication map (PAIR converse); outer-name lookups that can reach an inner-mapped location are dominated by the name-vs-original-text comparison (NAMECHECK). Round 3: KEYSPACE and SIDES (translation tables are keyed in one numbering; tables handed to one helper belong to one child stream). Round 4: CTOR-VERBATIM — SourceMapSource constructors store the remove_original_source request as given. Round 5: CTOR-VERBATIM covers every constructor field (value, name, maps, original source), not only the removal flag. Round 6: PREFILL — every lazily resolved translation table (read with a negative sentinel) receives an explicit entry for every announced key on every path of the announcement callback.',
         technique='index-space origin dataflow + post-dominator pairing on MIR',
         design_ref='§5 C09'),
     'C11': dict(
@@ -167,7 +167,7 @@ CLAIMS = {
         text='Static: in every chunk stream each new index is dense (len() of the de-duplication map) and announced with that same value '
              'on every path after insertion (PAIR, 10 sites); eager announcers complete before delivery and never-announced names are never '
              'emitted (EAGER); indices used come from the announced numbering (IDX); the mappings string consists only of base64 digits, "," '
-             'and ";" (ALPHABET, sound for that clause). NOT decided: strictly increasing positions, lines >= 1, positions inside the text. Added: PAIR converse and IDX forwarded (see C09/C06). Still NOT decided: position arithmetic (seeded C11-m1 is not detected). Round 5: TEE-FORWARD — the cache-filling tee forwards every chunk / source / name notification to the caller on every path.',
+             'and ";" (ALPHABET, sound for that clause). NOT decided: strictly increasing positions, lines >= 1, positions inside the text. Added: PAIR converse and IDX forwarded (see C09/C06). Still NOT decided: position arithmetic (seeded C11-m1 is not detected). Round 5: TEE-FORWARD — the cache-filling tee forwards every chunk / source / name notification to the caller on every path. PREFILL registered here as well (an unfilled gap reads as index 0, an index inside the tables but of the wrong file).',
         technique='post-dominator pairing, loop ordering, origin dataflow, constant byte-set dataflow on MIR',
         design_ref='§5 C11'),
 }
